@@ -11,6 +11,10 @@ func (rs *RecordSet) readFromVersion2(d *decoder) error {
 	baseOffset := d.readInt64()
 	batchLength := d.readInt32()
 
+	if batchLength < 0 {
+		return fmt.Errorf("invalid negative record batch length: %d", batchLength)
+	}
+
 	if int(batchLength) > d.remain || d.err != nil {
 		d.discardAll()
 		return nil
@@ -66,6 +70,11 @@ func (rs *RecordSet) readFromVersion2(d *decoder) error {
 	dec.reader = buffer
 	dec.remain = recordsLength
 
+	// a record occupies at least 7 bytes
+	if numRecords < 0 || int(numRecords) > recordsLength {
+		return fmt.Errorf("invalid record count %d in a batch of %d bytes", numRecords, recordsLength)
+	}
+
 	records := make([]optimizedRecord, numRecords)
 	// These are two lazy allocators that will be used to optimize allocation of
 	// page references for keys and values.
@@ -114,7 +123,9 @@ func (rs *RecordSet) readFromVersion2(d *decoder) error {
 			dec.discard(int(valueLength))
 		}
 
-		if numHeaders := dec.readVarInt(); numHeaders > 0 {
+		if numHeaders := dec.readVarInt(); numHeaders > int64(dec.remain) {
+			dec.setError(errLengthExceedsFrame)
+		} else if numHeaders > 0 {
 			if headers == nil {
 				headers = make([][]Header, numRecords)
 			}
